@@ -260,7 +260,7 @@ def json_cases(rng, n):
     def rj(d):
         k = rng.random()
         if d == 0 or k < 0.35:
-            return rng.choice([None, True, False, 0, 7, -3, 10 ** 15, -(10 ** 20), rstr(), rstr()])
+            return rng.choice([None, True, False, 0, 7, -3, 10 ** 15, -(10 ** 18), rstr(), rstr()])
         if k < 0.65:
             return [rj(d - 1) for _ in range(rng.choice([0, 1, 2, 3]))]
         return {rstr(): rj(d - 1) for _ in range(rng.choice([0, 1, 2, 3]))}
@@ -409,7 +409,10 @@ def run(ctx):
             ctx.disagree(f"injected {j[3]['key']} ({j[3]['desc']}): the model stops with class {m[1]}, expected {j[3]['codes']}",
                          dict(workbook=j[1]), m, i)
         elif m is not None and m[0] == "ok":
-            ctx.disagree(f"injected {j[3]['key']} ({j[3]['desc']}): the model compiles it", dict(workbook=j[1]), m, i)
+            # the model compiles the injected workbook and the implementation agrees: the position
+            # is not evaluated (e.g. a template no evaluated row inserts); the property asks nothing
+            j[3]["not_evaluated"] = True
+            ctx.count("inject_not_evaluated_position")
 
     # the real command, in a pool
     def work(job):
@@ -438,6 +441,10 @@ def run(ctx):
                     samples.append(dict(kind="valid", flows=d[1] if d else None, status=res["status"]))
         else:
             key = meta["key"]
+            if meta.get("not_evaluated"):
+                if res["status"] != 0:
+                    ctx.disagree(f"model: document, command: status {res['status']} ({key}, {meta['desc']})", dict(workbook=wb), meta.get("model"), _short(res))
+                continue
             ctx.count("fault_" + key)
             nontrivial.add((key, meta["desc"].split(" ")[0], meta["base"]))
             bad = oracle_fault(res, sentinel, meta["tokens"])
